@@ -117,11 +117,15 @@ impl<R> Archive<R> {
             .to_vec();
         Self::verify_pre_header(&header)?;
 
-        let dictionary_size = u64::from_le_bytes(
+        let dictionary_size = usize::try_from(u64::from_le_bytes(
             header[header::ARCHIVE_MAGIC.len()..header::PRE_HEADER_SIZE]
                 .try_into()
                 .unwrap(),
-        ) as usize;
+        ))
+        .ok()
+        // The full header (pre-header, dictionary, offset and checksum) must be addressable
+        .filter(|size| size.checked_add(header::PRE_HEADER_SIZE + 8 + 64).is_some())
+        .ok_or_else(|| ArchiveError::invalid_archive("invalid dictionary size"))?;
 
         // Read the dictionary, chunk data offset and header hash
         header.extend_from_slice(
